@@ -139,11 +139,10 @@ byte viol = 0;
 #define E_KILLINT 30
 #define E_ENVFAIL 31    /* the transferred environment does not evaluate */
 
-#ifdef THIRD_CONTROL_ONLY
-#define G3 (nreq <= 2)     /* the third request is a control request */
-#else
-#define G3 true
+#ifndef FULLREQ
+#define FULLREQ NREQ
 #endif
+#define G3 (nreq <= FULLREQ)   /* requests after the FULLREQ-th are control requests (no daemon-side events) */
 
 #ifdef ENUM
 #define HMAX 14
@@ -508,7 +507,7 @@ proctype Py() {
 	/* the session is over; wait until the daemon is quiescent so each history has one end state */
 	((dstate == 1 && empty(p2d)) || dstate == 2);
 #ifdef ENUM
-	assert(false)
+	assert(h[0] == 0)       /* always violated (h[0] is a request code); reading h keeps spin from hiding it */
 #else
 #ifdef OBS
 	assert(oi < OBSN)       /* violated <=> the whole observed sequence was produced */
@@ -520,13 +519,11 @@ proctype Py() {
 
 /* ---- daemon side ------------------------------------------------------- */
 mtype dt; byte ds; bit da;     /* last line read by the daemon */
+mtype mcmd;                    /* the main-loop command being served */
 byte dcur = 0;                 /* ghost: tag of the command line the daemon is answering */
-byte mcur = 0;                 /* ghost: tag of the main-loop command */
-byte dreq = 0;                 /* ghost: Python request number (for DEV lines) */
 byte nev;
 bit sub_fail;                  /* exit status of the phase / metadata subshell */
 bit sub_died;
-bit indie;
 
 inline d_write(t, ack) {
 	d2p!t,dcur,ack
@@ -577,7 +574,7 @@ proctype Daemon() {
 	do
 	::	dstate = 1;
 end_idle:	if
-		:: p2d?dt,ds,da -> dstate = 0; dcur = ds; mcur = ds
+		:: p2d?dt,ds,da -> dstate = 0; dcur = ds; mcmd = dt
 		:: sigpend == 1 -> dstate = 0; d_write(SIGTERM_N, 0); break
 		:: sigpend == 2 -> dstate = 0; d_write(SIGINT_N, 0); break
 		:: pclosed && empty(p2d) -> dstate = 0; break          /* read fails: shutdown_daemon */
@@ -606,7 +603,7 @@ end_idle:	if
 				d_write(BOGUSD, 0)
 			:: HREC(E_OK); printf("DEV %d ok\n", cur);
 				if
-				:: dt == GENMETA -> d_write(KEY, 0)
+				:: mcmd == GENMETA -> d_write(KEY, 0)
 				:: else -> d_write(RECEIVE_ENV, 0)
 				fi;
 				break
@@ -681,8 +678,8 @@ end_idle:	if
 				:: else -> d_die(); sub_fail = 1; break     /* unknown phase processing com */
 				fi
 			od;
-			/* back in the main process: a trapped signal runs before the next command */
-			dcur = mcur;
+			/* back in the main process: a trapped signal runs before the next command.
+			 * (ghost tag: the closing line answers the exchange opened by the last phase-loop command) */
 			if
 			:: sigpend == 1 -> d_write(SIGTERM_N, 0); break
 			:: sigpend == 2 -> d_write(SIGINT_N, 0); break
